@@ -137,11 +137,11 @@ def register(claim, not_yet):
           'average pooling of the low-pass, smoothed magnitudes sq(re^2+im^2+b^2)-b of the six bands (joint over three colour channels with colour combination), band-major 7C packing - for every '
           'stack of images with at least one row and column and for ANY square-root operation sq (C08P.ScatLayer_eq_spec; non-band-pass families); every magnitude channel sqrt(re^2+im^2+b^2)-b '
           '(and the joint colour magnitude) is non-negative for b >= 0 over the reals; the first-order Function returns 7C band-major channels and raises exactly for odd sizes (which the module '
-          'removes by edge extension); the second-order Function raises unless both sizes are multiples of 8. The band-pass families, the second-order cascade and the floating-point evaluation are a Float tier: '
+          'removes by edge extension); the second-order Function raises unless both sizes are multiples of 8. THE SECOND-ORDER LAYER (no colour combination, non-band-pass families) of the implementation model - extension of the image to multiples of 8, level-1 DTCWT of every channel, smoothed magnitudes, level-2 (q-shift) DTCWT of the level-1 low-passes, a second level-1 DTCWT of the 6C first-order magnitude images, 2x2 pooling, the 49C packing [S0 | pooled S1 | S1 at scale 2 | S2] - equals the composition of the reference transforms Spec.refLevel1 / Spec.refLevel2 with those formulas (Spec.scat2) for every channel count, every image with at least 4 rows and columns and ANY square-root operation (C08Q.scatJ2_eq_spec, ScatLayerj2_eq_spec). The band-pass families, the colour variant of the second-order layer and the floating-point evaluation are a Float tier: '
           'the executable Lean model of both layers (incl. _rot and colour variants) is compared with the real layers to 1e-9, and the real layers are compared with numpy dtcwt + formulas + pooling + '
           'packing for five filter families. Known finding: ScatLayerj2 on H == 2 or W == 2.' + BRK,
-          'Lean 4 theorems (first-order layer = reference DTCWT + formulas for any sqrt; non-negativity over R; channel bookkeeping; raise conditions) + Float-tier model/code correspondence + numpy dtcwt oracle', 'DESIGN.md §4 C08',
-          'second-order values and the band-pass variants are Float-tier correspondence/oracle-decided: partial.')
+          'Lean 4 theorems (first- and second-order layers = reference DTCWT + formulas for any sqrt; non-negativity over R; channel bookkeeping; raise conditions) + Float-tier model/code correspondence + numpy dtcwt oracle', 'DESIGN.md §4 C08',
+          'the band-pass variants, the colour variant of the second-order layer and the floating-point square root are Float-tier correspondence/oracle-decided: partial.')
     claim('C09',
           'Proved over the reals: d/dt sqrt(t^2+c) = t/sqrt(t^2+c) for c > 0 (so d mag/d re = re/r, the factor the layers save), also at t = 0; with b > 0, r >= b > 0 and |re/r|,|im/r| <= 1, '
           'hence the saved factors and the gradient are finite for every input including the zero image. The multivariate chain rule gluing these with the linear DTCWT/pooling adjoints is '
